@@ -90,6 +90,11 @@ CHECKS = {
    "Sequences of real messages (mined headers, blocks and compact blocks, assembled transactions, segment responses cut from PMMRs, header lists of 0..89 items around the batching boundary 32, attachments up to 200 KB, unknown types) at protocol versions 1, 2, 3, 1000 are written through a loopback TCP socket under generated fragmentation (every single split point for short streams, multi-splits, 1-byte dribble, small delays) and must be read by the real Codec as the identical sequence (re-encoded bytes, batch concatenation with correct remaining, attachment bytes). Frames with wrong magic, over-limit lengths or inconsistent header counts are refused after at most the 11 header bytes with no allocation of the announced size (measured in a child process). The real handshake is driven against scripted peers for version negotiation, genesis mismatch and self-connection. Sampled exploration; exhaustive over split points of the short streams.",
    "Delays stay far inside the I/O timeouts. The length limit asserted is the one the code defines (4x the nominal maximum); the zone between nominal and 4x is recorded, not asserted.",
    "DESIGN.md §5 C19"),
+ "C17": ("pbt", "exploration",
+   "seeded multi-threaded stress of one Chain with schedule perturbation at lock-acquisition hooks; bracketed-read oracle against the replay model; final state vs. sequential twin",
+   "A generated fork tree of real-PoW blocks is built sequentially; a fresh chain (empty or a copy of the 90-block base chain) is then used at once by peer threads delivering overlapping subsets of the blocks in perturbed orders, header-first threads, reader threads (head, get_block, get_unspent, validate_inputs, get_header_by_height, set_txhashset_roots on candidate children, segmenter) and a compaction thread, while a seeded plan sleeps/yields at the cfg(grin_verif) scheduling points. Every observed head must name a stored block with matching height and work, head work never decreases per reader, reads bracketed by two equal heads must equal the replay model of that head, set_txhashset_roots must reproduce the sequential roots, nothing panics, nothing stalls, and the final head, roots, full unspent scan and validate(false) equal the sequential result. Interleavings are sampled by repetition, not enumerated.",
+   "A seed fixes the operation multiset and the perturbation plan, not the OS schedule; a stall is reported as a deadlock only if every unfinished worker is waiting for a lock, otherwise the run is inconclusive (exit 2). No liveness claim.",
+   "DESIGN.md §5 C17"),
 }
 
 NOT_YET = {}
